@@ -16,9 +16,10 @@
         `upsert.update`    absent key: a value is given, the weight to charge is positive (documented);
                            present key with a time-to-live: `now + ttl` is representable at the clock of THIS action;
         `upsert.weight_of` (no change of the expiry index), `ttl.put`, `ttl.delete`, `ttl.update.insert`:
-                           the weight the tail of `put_or_update` asserts on is a positive `i64` — the explicit /
-                           computed weight, or the `existing ± ttl_ticker_entry_size` that `upsert.weight_of` computed
-                           from the charge it found AT ITS OWN ACTION (`C17_layerB_weight_of_computes`);
+                           the weight the tail of `put_or_update` asserts on — if there is one — is a positive `i64`:
+                           the explicit / computed weight, or the `existing ± ttl_ticker_entry_size` that
+                           `upsert.weight_of` computed from the charge it found AT ITS OWN ACTION
+                           (`C17_layerB_weight_of_computes`); no weight, nothing to assert, when the id was not charged;
     * `worker`           the side condition of the position the worker stands at (`WPc.pre`):
         `store.put`        put with time-to-live: `now + ttl` is representable at the worker's clock;
         `kw.update`        charged id: `new - charged` and `used + (new - charged)` are in `i64` range,
@@ -32,8 +33,9 @@
                                        reachable ones: every clause of `Act.pre` is about the action itself);
     * `C17_layerB_weight_of_computes`, `C17_layerB_weight_decided_at_weight_of`
                                        the weight a time-to-live addition / removal asserts on is `charge ± 24` with the
-                                       charge READ AT `upsert.weight_of`; nothing any other thread does afterwards
-                                       changes the verdict, what they did before (since the call was issued) does;
+                                       charge READ AT `upsert.weight_of` — or NO weight at all when the key id is not
+                                       charged there (since the fix of `weight_of`); nothing any other thread does
+                                       afterwards changes the verdict;
     * `C17_layerB_pre_necessary`       every side-condition clause is EXACT: where it fails the (enabled) action panics
                                        / kills the worker — in every state; plus one reachable witness per clause
                                        (`C17_layerB_counterexample_*`, the Layer B counterparts of the five Layer A ones);
@@ -43,12 +45,22 @@
                                        the sweeper's and the consumer's actions have no panic site (the consumer given
                                        a well-formed sketch), at every state of every interleaving; they exit only
                                        after `shutdown()` was called;
-    * FINDING (needs an interleaving, invisible in Layer A):
-      `C17_layerB_counterexample_race_sweeper`, `C17_layerB_counterexample_race_eviction`,
-      `C17_layerB_counterexample_race_delete` (and `…_race_value_missing`): a `put_or_update` that satisfies every precondition of Layer A
-      (`Ev.pre`) when it is issued AND when its `upsert.update` runs panics in the caller, because another thread
-      (the sweeper expiring the key, the worker evicting it for another key's put, the worker executing a delete)
-      removes the key's charge / the key between two actions of the call.
+    * `C17_layerB_ttl_only_upsert_safe_under_races` (+ `…_uncharged_safe`, `C17_layerB_no_weight_accepted`)
+                                       what the fix of `weight_of` buys: a `put_or_update` that only adds / moves /
+                                       removes a time-to-live and met `Act.pre` at `upsert.update` never panics
+                                       afterwards, WHATEVER the other threads do in between, provided that at
+                                       `upsert.weight_of` the key id is not charged or `charge ∓ 24` is a positive `i64`;
+    * the former FINDING (D14, first form; needed an interleaving, invisible in Layer A) is REPAIRED:
+      `C17_layerB_race_sweeper_fixed`, `C17_layerB_race_eviction_fixed`, `C17_layerB_race_delete_fixed` (the runs of the
+      former `C17_layerB_counterexample_race_sweeper / _race_eviction / _race_delete`, on which a `put_or_update` that
+      satisfied every precondition of Layer A (`Ev.pre`) when it was issued AND when its `upsert.update` ran panicked
+      in the caller, because another thread removed the key's charge between two actions of the call) now end without
+      a panic; `C17_layerB_race_sweeper_uncharged_fixed`: a variant in which the sweeper does take the id out;
+    * FINDINGS that remain: `C17_layerB_counterexample_race_value_missing` (D14, second form) — the documented
+      precondition "a value when the key is absent" is not stable between the issue of the call and `upsert.update`;
+      `C17_layerB_counterexample_race_weight_update` — another client's valid `put_or_update(k).weight(5)` LOWERS the
+      charge (29 → 5) between `upsert.update` and `upsert.weight_of` of a time-to-live removal: `5 - 24`, panic in the
+      caller (D4 reached by a race; the fix of `weight_of` covers only an id that is no longer charged at all).
 -/
 import CachedProofs.LayerB.NoPanicLemmas
 
@@ -352,46 +364,83 @@ theorem C17_layerB_pre_necessary {b b' : BState} {o o' : Oracle} :
     · exact h1
 
 /-- **Where the weight asserted on comes from.**  `upsert.weight_of` of a request that gives neither weight nor value
-    reads the charge of the key's id IN THE STATE IN WHICH IT RUNS (`chargedWeight`, 0 if the id is not charged) and
-    hands `charge + ttl_ticker_entry_size` (a time-to-live is added) / `charge - ttl_ticker_entry_size` (it is removed)
-    to the next action of the call, which asserts on it.  Nobody but the client itself can change that local any more
-    (`other_threads_keep_pc`).  So in terms of the shared state the side condition of a time-to-live removal is
-    `ttl_ticker_entry_size < charge` AT `upsert.weight_of` — not when the call is issued, not at `upsert.update`. -/
+    reads the charge of the key's id IN THE STATE IN WHICH IT RUNS (`chargedWeight?`: `weight_of(&key_id)`, an `Option`
+    since the fix: an id that is no longer charged has no weight to adjust) and hands
+    `charge + ttl_ticker_entry_size` (a time-to-live is added) / `charge - ttl_ticker_entry_size` (it is removed)
+    to the next action of the call, which asserts on it — or NOTHING, when the id is not charged: then no weight is
+    asserted on (the side condition of the next action holds trivially) and no `UpdateWeight` will be sent.
+    Nobody but the client itself can change that local any more (`other_threads_keep_pc`).  So in terms of the shared
+    state the side condition of a time-to-live removal is `charged → ttl_ticker_entry_size < charge` AT
+    `upsert.weight_of` — not when the call is issued, not at `upsert.update`.
+    (Before the fix the local was `chargedWeight ± ttl_ticker_entry_size` with `chargedWeight = 0` for an id that is
+    not charged; for a charged id the statement is the one before the fix, word for word.) -/
 theorem C17_layerB_weight_of_computes {b b' : BState} {i id : Nat} {old new : Option Nat} {o o' : Oracle}
     (hpc : b.cl[i]? = some (.upWeightOf id none old new)) (h : stepB b (.client i) o = .ok (b', o')) :
     (∀ n, typeOfExpiryUpdate old new = .added n →
-      b'.cl[i]? = some (.upTtlPut id n (some (chargedWeight b.g id + b.g.cfg.ttlEntry))) ∧
-      (Act.pre b' (.client i) ↔ inI64 (chargedWeight b.g id + b.g.cfg.ttlEntry) = true ∧
-        0 < chargedWeight b.g id + b.g.cfg.ttlEntry)) ∧
+      b'.cl[i]? = some (.upTtlPut id n ((chargedWeight? b.g id).map (· + b.g.cfg.ttlEntry))) ∧
+      ((b.g.adm.kw.get? id).isSome = true →
+        b'.cl[i]? = some (.upTtlPut id n (some (chargedWeight b.g id + b.g.cfg.ttlEntry))) ∧
+        (Act.pre b' (.client i) ↔ inI64 (chargedWeight b.g id + b.g.cfg.ttlEntry) = true ∧
+          0 < chargedWeight b.g id + b.g.cfg.ttlEntry)) ∧
+      (b.g.adm.kw.get? id = none → b'.cl[i]? = some (.upTtlPut id n none) ∧ Act.pre b' (.client i))) ∧
     (∀ e, typeOfExpiryUpdate old new = .deleted e →
-      b'.cl[i]? = some (.upTtlDelete id e (some (chargedWeight b.g id - b.g.cfg.ttlEntry))) ∧
-      (Act.pre b' (.client i) ↔ inI64 (chargedWeight b.g id - b.g.cfg.ttlEntry) = true ∧
-        b.g.cfg.ttlEntry < chargedWeight b.g id)) := by
+      b'.cl[i]? = some (.upTtlDelete id e ((chargedWeight? b.g id).map (· - b.g.cfg.ttlEntry))) ∧
+      ((b.g.adm.kw.get? id).isSome = true →
+        b'.cl[i]? = some (.upTtlDelete id e (some (chargedWeight b.g id - b.g.cfg.ttlEntry))) ∧
+        (Act.pre b' (.client i) ↔ inI64 (chargedWeight b.g id - b.g.cfg.ttlEntry) = true ∧
+          b.g.cfg.ttlEntry < chargedWeight b.g id)) ∧
+      (b.g.adm.kw.get? id = none → b'.cl[i]? = some (.upTtlDelete id e none) ∧ Act.pre b' (.client i))) := by
   have hi : i < b.cl.length := by
     rcases List.getElem?_eq_some_iff.mp hpc with ⟨hi, _⟩; exact hi
   simp only [stepB, clientAct, hpc] at h
   refine ⟨?_, ?_⟩
   · intro n hn
     simp only [hn, Except.ok.injEq, Prod.mk.injEq] at h; obtain ⟨rfl, rfl⟩ := h
-    have hcl : (setClient b i (.upTtlPut id n (some (chargedWeight b.g id + b.g.cfg.ttlEntry)))).cl[i]? =
-        some (.upTtlPut id n (some (chargedWeight b.g id + b.g.cfg.ttlEntry))) := by
-      simp [setClient, hi]
-    refine ⟨hcl, ?_⟩
-    change clientPre _ (setClient b i (.upTtlPut id n (some (chargedWeight b.g id + b.g.cfg.ttlEntry)))).cl[i]? ↔ _
-    rw [hcl]
-    simp [clientPre, CPc.pre, uwOk]
+    have hcl : ∀ u, (setClient b i (.upTtlPut id n u)).cl[i]? = some (.upTtlPut id n u) := by
+      intro u; simp [setClient, hi]
+    refine ⟨hcl _, ?_, ?_⟩
+    · intro hsome
+      obtain ⟨wk, hk⟩ := Option.isSome_iff_exists.mp hsome
+      have hu : (Option.map (· + b.g.cfg.ttlEntry) (Option.map (·.weight) (b.g.adm.kw.get? id))) =
+          some (chargedWeight b.g id + b.g.cfg.ttlEntry) := by simp [hk, chargedWeight]
+      rw [hu]
+      refine ⟨hcl _, ?_⟩
+      change clientPre _ (setClient b i (.upTtlPut id n (some (chargedWeight b.g id + b.g.cfg.ttlEntry)))).cl[i]? ↔ _
+      rw [hcl]
+      simp [clientPre, CPc.pre, uwOk]
+    · intro hk
+      have hu : (Option.map (· + b.g.cfg.ttlEntry) (Option.map (·.weight) (b.g.adm.kw.get? id))) = none := by
+        simp [hk]
+      rw [hu]
+      refine ⟨hcl _, ?_⟩
+      change clientPre _ (setClient b i (.upTtlPut id n none)).cl[i]?
+      rw [hcl]
+      simp [clientPre, CPc.pre, uwOk]
   · intro e he
     simp only [he, Except.ok.injEq, Prod.mk.injEq] at h; obtain ⟨rfl, rfl⟩ := h
-    have hcl : (setClient b i (.upTtlDelete id e (some (chargedWeight b.g id - b.g.cfg.ttlEntry)))).cl[i]? =
-        some (.upTtlDelete id e (some (chargedWeight b.g id - b.g.cfg.ttlEntry))) := by
-      simp [setClient, hi]
-    refine ⟨hcl, ?_⟩
-    change clientPre _ (setClient b i (.upTtlDelete id e (some (chargedWeight b.g id - b.g.cfg.ttlEntry)))).cl[i]? ↔ _
-    rw [hcl]
-    simp only [clientPre, CPc.pre, uwOk]
-    constructor
-    · rintro ⟨h1, h2⟩; exact ⟨h1, by omega⟩
-    · rintro ⟨h1, h2⟩; exact ⟨h1, by omega⟩
+    have hcl : ∀ u, (setClient b i (.upTtlDelete id e u)).cl[i]? = some (.upTtlDelete id e u) := by
+      intro u; simp [setClient, hi]
+    refine ⟨hcl _, ?_, ?_⟩
+    · intro hsome
+      obtain ⟨wk, hk⟩ := Option.isSome_iff_exists.mp hsome
+      have hu : (Option.map (· - b.g.cfg.ttlEntry) (Option.map (·.weight) (b.g.adm.kw.get? id))) =
+          some (chargedWeight b.g id - b.g.cfg.ttlEntry) := by simp [hk, chargedWeight]
+      rw [hu]
+      refine ⟨hcl _, ?_⟩
+      change clientPre _ (setClient b i (.upTtlDelete id e (some (chargedWeight b.g id - b.g.cfg.ttlEntry)))).cl[i]? ↔ _
+      rw [hcl]
+      simp only [clientPre, CPc.pre, uwOk]
+      constructor
+      · rintro ⟨h1, h2⟩; exact ⟨h1, by omega⟩
+      · rintro ⟨h1, h2⟩; exact ⟨h1, by omega⟩
+    · intro hk
+      have hu : (Option.map (· - b.g.cfg.ttlEntry) (Option.map (·.weight) (b.g.adm.kw.get? id))) = none := by
+        simp [hk]
+      rw [hu]
+      refine ⟨hcl _, ?_⟩
+      change clientPre _ (setClient b i (.upTtlDelete id e none)).cl[i]?
+      rw [hcl]
+      simp [clientPre, CPc.pre, uwOk]
 
 /-- a stretch of a run in which client `i` does not move: no action of client `i`, no request issued for it -/
 inductive OthersRun (i : Nat) : BState → BState → Prop
@@ -406,32 +455,48 @@ theorem OthersRun.keep_pc {i : Nat} {b b' : BState} (h : OthersRun i b b') : b'.
 
 /-- **The side condition of a time-to-live removal / addition is decided at `upsert.weight_of`, once and for all.**
     Whatever the other threads do after client `i`'s `upsert.weight_of` (any number of actions of any other thread),
-    the next action of the call meets `Act.pre` — its assert passes — iff `charge ∓ ttl_ticker_entry_size` was a
-    positive `i64` IN THE STATE `b` IN WHICH `upsert.weight_of` RAN.  What the other threads did BEFORE that action
-    (after the call was issued, after its `upsert.update`) does matter: `C17_layerB_counterexample_race_*`. -/
+    the next action of the call meets `Act.pre` — its assert passes — iff the key id was NOT CHARGED (nothing is
+    asserted on, nothing will be sent) or `charge ∓ ttl_ticker_entry_size` was a positive `i64`, IN THE STATE `b` IN
+    WHICH `upsert.weight_of` RAN.  What the other threads did BEFORE that action (after the call was issued, after its
+    `upsert.update`) matters only through the charge they left: since the fix, taking the id out of the ledger no
+    longer makes the call panic (`C17_layerB_race_*_fixed`, `C17_layerB_ttl_only_upsert_safe_under_races`). -/
 theorem C17_layerB_weight_decided_at_weight_of {b b' b'' : BState} {i id : Nat} {old new : Option Nat} {o o' : Oracle}
     (hpc : b.cl[i]? = some (.upWeightOf id none old new)) (h : stepB b (.client i) o = .ok (b', o'))
     (hrun : OthersRun i b' b'') :
     (∀ n, typeOfExpiryUpdate old new = .added n →
-      (Act.pre b'' (.client i) ↔ inI64 (chargedWeight b.g id + b.g.cfg.ttlEntry) = true ∧
-        0 < chargedWeight b.g id + b.g.cfg.ttlEntry)) ∧
+      ((b.g.adm.kw.get? id).isSome = true →
+        (Act.pre b'' (.client i) ↔ inI64 (chargedWeight b.g id + b.g.cfg.ttlEntry) = true ∧
+          0 < chargedWeight b.g id + b.g.cfg.ttlEntry)) ∧
+      (b.g.adm.kw.get? id = none → b''.cl[i]? = some (.upTtlPut id n none) ∧ Act.pre b'' (.client i))) ∧
     (∀ e, typeOfExpiryUpdate old new = .deleted e →
-      (Act.pre b'' (.client i) ↔ inI64 (chargedWeight b.g id - b.g.cfg.ttlEntry) = true ∧
-        b.g.cfg.ttlEntry < chargedWeight b.g id)) := by
+      ((b.g.adm.kw.get? id).isSome = true →
+        (Act.pre b'' (.client i) ↔ inI64 (chargedWeight b.g id - b.g.cfg.ttlEntry) = true ∧
+          b.g.cfg.ttlEntry < chargedWeight b.g id)) ∧
+      (b.g.adm.kw.get? id = none → b''.cl[i]? = some (.upTtlDelete id e none) ∧ Act.pre b'' (.client i))) := by
   obtain ⟨h1, h2⟩ := C17_layerB_weight_of_computes hpc h
   have hk := hrun.keep_pc
-  refine ⟨fun n hn => ?_, fun e he => ?_⟩
-  · obtain ⟨hcl, _⟩ := h1 n hn
+  refine ⟨fun n hn => ⟨fun hs => ?_, fun hnone => ?_⟩, fun e he => ⟨fun hs => ?_, fun hnone => ?_⟩⟩
+  · obtain ⟨hcl, _⟩ := (h1 n hn).2.1 hs
     change clientPre b''.g b''.cl[i]? ↔ _
     rw [hk, hcl]
     simp [clientPre, CPc.pre, uwOk]
-  · obtain ⟨hcl, _⟩ := h2 e he
+  · obtain ⟨hcl, _⟩ := (h1 n hn).2.2 hnone
+    refine ⟨by rw [hk, hcl], ?_⟩
+    change clientPre b''.g b''.cl[i]?
+    rw [hk, hcl]
+    simp [clientPre, CPc.pre, uwOk]
+  · obtain ⟨hcl, _⟩ := (h2 e he).2.1 hs
     change clientPre b''.g b''.cl[i]? ↔ _
     rw [hk, hcl]
     simp only [clientPre, CPc.pre, uwOk]
     constructor
     · rintro ⟨a1, a2⟩; exact ⟨a1, by omega⟩
     · rintro ⟨a1, a2⟩; exact ⟨a1, by omega⟩
+  · obtain ⟨hcl, _⟩ := (h2 e he).2.2 hnone
+    refine ⟨by rw [hk, hcl], ?_⟩
+    change clientPre b''.g b''.cl[i]?
+    rw [hk, hcl]
+    simp [clientPre, CPc.pre, uwOk]
 
 /-! ## C17, runs -/
 
@@ -758,18 +823,48 @@ example : ∃ b, ValidRunB (c17B 3) (c17RunOk.take 41) b ∧ b.w = .update 1 53 
   exact ⟨b, hv, of_decide_eq_true hq⟩
 
 /-- the hypothesis of `C17_layerB_weight_of_computes` is met along that run (after 30 actions client 0 stands at
-    `upsert.weight_of` of a request without weight and value that adds a time-to-live), and the local it hands on is
-    the `29 + 24` the theorem says -/
+    `upsert.weight_of` of a request without weight and value that adds a time-to-live, the key id is charged), and the
+    local it hands on is the `29 + 24` the theorem says -/
 example : ∃ b, ValidRunB (c17B 3) (c17RunOk.take 30) b ∧
     b.cl[0]? = some (.upWeightOf 1 none none (some 5000000000)) ∧
     typeOfExpiryUpdate none (some 5000000000) = .added 5000000000 ∧
+    (b.g.adm.kw.get? 1).isSome = true ∧ chargedWeight? b.g 1 = some 29 ∧
     chargedWeight b.g 1 + b.g.cfg.ttlEntry = 53 := by
   have h : checkRun (c17B 3) (c17RunOk.take 30) (fun b => decide (
       b.cl[0]? = some (.upWeightOf 1 none none (some 5000000000)) ∧
       typeOfExpiryUpdate none (some 5000000000) = .added 5000000000 ∧
+      (b.g.adm.kw.get? 1).isSome = true ∧ chargedWeight? b.g 1 = some 29 ∧
       chargedWeight b.g 1 + b.g.cfg.ttlEntry = 53)) = true := by decide +kernel
   obtain ⟨b, hv, hq⟩ := checkRun_sound h
   exact ⟨b, hv, of_decide_eq_true hq⟩
+
+/-- … and its other branch — the key id is NOT charged when `upsert.weight_of` runs — on the run of
+    `C17_layerB_race_delete_fixed` (below): a time-to-live is removed, client 1's `delete(1)` has been executed up to
+    `kw.remove`; `upsert.weight_of` runs and hands on no weight -/
+example : ∃ b b' o', ValidRunB (c17B 2)
+      (acts (putActs 0 1 10 29 (some 1000000000) ++ List.replicate 7 .worker ++
+        [.issue 0 (.upsert 1 none none none true), .client 0, .client 0, .issue 1 (.delete 1), .client 1, .client 1,
+         .client 1, .worker, .worker, .worker])) b ∧
+    b.cl[0]? = some (.upWeightOf 1 none (some 4000000000) none) ∧
+    typeOfExpiryUpdate (some 4000000000) none = .deleted 4000000000 ∧
+    b.g.adm.kw.get? 1 = none ∧ chargedWeight? b.g 1 = none ∧
+    stepB b (.client 0) {} = .ok (b', o') ∧ b'.cl[0]? = some (.upTtlDelete 1 4000000000 none) ∧
+    Act.pre b' (.client 0) := by
+  have h : checkRun (c17B 2)
+      (acts (putActs 0 1 10 29 (some 1000000000) ++ List.replicate 7 .worker ++
+        [.issue 0 (.upsert 1 none none none true), .client 0, .client 0, .issue 1 (.delete 1), .client 1, .client 1,
+         .client 1, .worker, .worker, .worker]))
+      (fun b => decide (b.cl[0]? = some (.upWeightOf 1 none (some 4000000000) none) ∧
+          typeOfExpiryUpdate (some 4000000000) none = .deleted 4000000000 ∧
+          b.g.adm.kw.get? 1 = none ∧ chargedWeight? b.g 1 = none) &&
+        checkStep b (.client 0) {} (fun b' => decide (b'.cl[0]? = some (.upTtlDelete 1 4000000000 none) ∧
+          Act.pre b' (.client 0)))) = true := by decide +kernel
+  obtain ⟨b, hv, hq⟩ := checkRun_sound h
+  simp only [Bool.and_eq_true, decide_eq_true_eq] at hq
+  obtain ⟨b', o', hs, hq'⟩ := checkStep_sound hq.2
+  obtain ⟨g1, g2, g3, g4⟩ := hq.1
+  have hq'' := of_decide_eq_true hq'
+  exact ⟨b, b', o', hv, g1, g2, g3, g4, hs, hq''.1, hq''.2⟩
 
 /-- … and so are those of `C17_layerB_weight_decided_at_weight_of`: client 0's `upsert.weight_of` runs, then the worker
     moves twice (`store.put`, `ttl.put` of key 2) while client 0 stands still -/
@@ -1015,18 +1110,26 @@ theorem C17_layerB_counterexample_documented :
     obtain ⟨b', o', hs, hq'⟩ := checkStep_sound hq.2
     exact ⟨b, b', o', hv, hq.1.1, hq.1.2, hs, of_decide_eq_true hq'⟩
 
-/-! ## FINDING: panics that need an interleaving
+/-! ## The races between `upsert.update` and `upsert.weight_of` (a FINDING before the fix; now repaired)
 
   In Layer A (`C17_upsert_no_panic`) a `put_or_update` is atomic, so its side conditions are evaluated once.  In the
   code the call is a sequence of actions: `upsert.update` (the store entry is rewritten in place) — `upsert.weight_of`
-  (the charge of the key's id is read from `key_weights`, `unwrap_or(0)`) — the expiry-index update and the
-  `assert!(weight > 0)`.  Between `upsert.update` and `upsert.weight_of` ANOTHER THREAD can take the id out of
-  `key_weights`: the sweeper (the key expires), the worker evicting the key to make room for another key's put, the
-  worker executing a `delete`.  Then `existing_weight = 0`, a time-to-live removal computes `0 - 24`, and the caller
-  panics — although every precondition of Layer A (`Ev.pre`: the key is present, it is charged more than 24) held when
-  the call was issued AND when its `upsert.update` ran, and although every action of every thread up to the panic meets
-  `Act.pre`.  The caller cannot rule this out: the condition `24 < charge` must hold at an instant in the middle of
-  its own call.  (Known so far — §8-D4 — was only the sequential case: a key charged less than 25.) -/
+  (the charge of the key's id is read from `key_weights`) — the expiry-index update and the `assert!(weight > 0)`.
+  Between `upsert.update` and `upsert.weight_of` ANOTHER THREAD can take the id out of `key_weights`: the sweeper (the
+  key expires), the worker evicting the key to make room for another key's put, the worker executing a `delete`.
+  BEFORE THE FIX `weight_of` answered `unwrap_or(0)`: a time-to-live removal computed `0 - 24` and the caller
+  panicked — although every precondition of Layer A (`Ev.pre`: the key is present, it is charged more than 24) held
+  when the call was issued AND when its `upsert.update` ran, and although every action of every thread up to the panic
+  met `Act.pre` (the three runs below were recorded as `C17_layerB_counterexample_race_sweeper / _race_eviction /
+  _race_delete`).
+  SINCE THE FIX (`existing : Option Int`; no weight is due for an id that is not charged) the same three runs end
+  without a panic: in the eviction and the delete run the call is answered `Accepted` on the spot and nothing is
+  sent; in the sweeper run the OTHER fix (the sweeper's `remove_if` re-validates against the store) makes the sweeper
+  leave the key alone, so the id stays charged and the call sends `UpdateWeight(1, 29 - 24)`; a variant in which the
+  sweeper's `kw.remove` runs before `upsert.update` (the key had really expired) shows the `Accepted` answer for the
+  sweeper as well.  The general statement: `C17_layerB_ttl_only_upsert_safe_under_races`.
+  (What remains is the sequential case — §8-D4 — of a key charged less than 25:
+  `C17_layerB_counterexample_ttl_removal`; and `C17_layerB_counterexample_race_value_missing`.) -/
 
 /-- Layer A's preconditions for `put_or_update(k).remove_time_to_live()`: the key is present and charged more than the
     expiry-index surcharge -/
@@ -1035,7 +1138,7 @@ theorem evPre_ttl_removal {s : State} {c k : Nat} {e : Entry} (hk : s.store.get?
     Ev.pre s (.upsert c k none none none true) := by
   refine ⟨nofun, nofun, ?_, nofun, ?_, ?_, nofun, nofun⟩
   · intro h; rw [hk] at h; cases h
-  · intro e' a he' _ _ _ _
+  · intro e' a he' _ _ _ _ _
     rw [hk] at he'; cases he'
     exact ⟨hc, hi⟩
   · intro e' t _ _ hrm; cases hrm
@@ -1071,30 +1174,48 @@ theorem key1Charged29.evPre {b : BState} (h : key1Charged29 b) (c : Nat) :
   · show inI64 (chargedWeight b.g 1 - b.g.cfg.ttlEntry) = true
     rw [h2, h3]; decide
 
-/-- **Race with the sweeper.**  `put_or_update(1).remove_time_to_live()` is issued while key 1 is present, alive and
-    charged 29: Layer A's `Ev.pre` holds then, and still when `upsert.update` runs (which removes the deadline from
-    the STORE entry; the expiry-index entry is removed only later, in `ttl.delete`).  The clock passes the old
-    deadline; a sweeper tick finds the index entry, takes id 1 out of `key_weights` (and the key out of the store).
-    Now `upsert.weight_of` finds no charge: `0 - 24`; the `ttl.delete` action panics in the caller.
-    Every action of every thread before the panic meets `Act.pre`. -/
-theorem C17_layerB_counterexample_race_sweeper :
-    ∃ b1 b2 b3 b4 o', ValidRunB (c17B 2) c17RaceSetup b1 ∧
+/-- **Race with the sweeper — the run of the former `C17_layerB_counterexample_race_sweeper`, after the fixes.**
+    `put_or_update(1).remove_time_to_live()` is issued while key 1 is present, alive and charged 29: Layer A's
+    `Ev.pre` holds then, and still when `upsert.update` runs (which removes the deadline from the STORE entry; the
+    expiry-index entry is removed only later, in `ttl.delete`).  The clock passes the old deadline; a sweeper tick finds
+    the index entry — and at its `kw.remove` action sees that the stored value has no deadline any more
+    (`unexpiredWithId`): it SKIPS (before the fix it took id 1 out of `key_weights` and the key out of the store).
+    So `upsert.weight_of` finds the charge 29 and hands on `29 - 24 = 5`; `ttl.delete` (the action that panicked
+    on `0 - 24`) meets `Act.pre` and moves on to the send; the worker applies `UpdateWeight(1, 5)`: key 1 is still
+    stored, charged 5, both calls acknowledged `Accepted`, no panic anywhere. -/
+theorem C17_layerB_race_sweeper_fixed :
+    ∃ b1 b2 b3 b4 b5 o', ValidRunB (c17B 2) c17RaceSetup b1 ∧
       Ev.pre b1.g (.upsert 0 1 none none none true) ∧
       ValidRunB b1 (acts [.issue 0 (.upsert 1 none none none true), .client 0]) b2 ∧
       b2.cl[0]? = some (.upUpdate 1 none none none true) ∧ Ev.pre b2.g (.upsert 0 1 none none none true) ∧
       ValidRunB b2 (acts [.client 0, .advance 3000000000, .sweeper none, .sweeper (some 1), .sweeper none,
         .sweeper none, .sweeper none, .client 0]) b3 ∧
-      b3.cl[0]? = some (.upTtlDelete 1 4000000000 (some (-24))) ∧ ¬ Act.pre b3 (.client 0) ∧
+      b3.g.store.get? 1 = some { value := 10, id := 1, expiry := none, soft := false } ∧
+      b3.g.adm.kw.get? 1 = some { key := 1, hash := 1, weight := 29 } ∧
+      b3.cl[0]? = some (.upTtlDelete 1 4000000000 (some 5)) ∧ Act.pre b3 (.client 0) ∧
       stepB b3 (.client 0) {} = .ok (b4, o') ∧
-      b4.res[0]? = some [.panic .weightNotPositive, .ack 0 .pending] ∧ ¬ PanicFree b4 := by
+      b4.cl[0]? = some (.send (.updateWeight 1 5)) ∧ b4.res[0]? = some [.ack 0 .pending] ∧ PanicFree b4 ∧
+      ValidRunB b4 (acts [.client 0, .worker, .worker]) b5 ∧
+      b5.res[0]? = some [.ack 1 .pending, .ack 0 .pending] ∧ b5.g.acks = [.accepted, .accepted] ∧ PanicFree b5 ∧
+      b5.g.store.get? 1 = some { value := 10, id := 1, expiry := none, soft := false } ∧
+      b5.g.adm.kw.get? 1 = some { key := 1, hash := 1, weight := 5 } ∧ b5.g.adm.used = 5 ∧ b5.g.ttl = [] ∧
+      b5.w = .recv ∧ b5.g.worker = .running := by
   have h : checkRun (c17B 2) c17RaceSetup (fun b1 => decide (key1Charged29 b1) &&
       checkRun b1 (acts [.issue 0 (.upsert 1 none none none true), .client 0]) (fun b2 =>
         decide (b2.cl[0]? = some (.upUpdate 1 none none none true) ∧ key1Charged29 b2) &&
         checkRun b2 (acts [.client 0, .advance 3000000000, .sweeper none, .sweeper (some 1), .sweeper none,
           .sweeper none, .sweeper none, .client 0]) (fun b3 =>
-          decide (b3.cl[0]? = some (.upTtlDelete 1 4000000000 (some (-24))) ∧ ¬ Act.pre b3 (.client 0)) &&
+          decide (b3.g.store.get? 1 = some { value := 10, id := 1, expiry := none, soft := false } ∧
+            b3.g.adm.kw.get? 1 = some { key := 1, hash := 1, weight := 29 } ∧
+            b3.cl[0]? = some (.upTtlDelete 1 4000000000 (some 5)) ∧ Act.pre b3 (.client 0)) &&
           checkStep b3 (.client 0) {} (fun b4 => decide (
-            b4.res[0]? = some [.panic .weightNotPositive, .ack 0 .pending] ∧ ¬ PanicFree b4))))) = true := by
+            b4.cl[0]? = some (.send (.updateWeight 1 5)) ∧ b4.res[0]? = some [.ack 0 .pending] ∧ PanicFree b4) &&
+            checkRun b4 (acts [.client 0, .worker, .worker]) (fun b5 => decide (
+              b5.res[0]? = some [.ack 1 .pending, .ack 0 .pending] ∧ b5.g.acks = [.accepted, .accepted] ∧
+              PanicFree b5 ∧
+              b5.g.store.get? 1 = some { value := 10, id := 1, expiry := none, soft := false } ∧
+              b5.g.adm.kw.get? 1 = some { key := 1, hash := 1, weight := 5 } ∧ b5.g.adm.used = 5 ∧ b5.g.ttl = [] ∧
+              b5.w = .recv ∧ b5.g.worker = .running)))))) = true := by
     decide +kernel
   obtain ⟨b1, hv1, hq1⟩ := checkRun_sound h
   simp only [Bool.and_eq_true, decide_eq_true_eq] at hq1
@@ -1103,19 +1224,70 @@ theorem C17_layerB_counterexample_race_sweeper :
   obtain ⟨b3, hv3, hq3⟩ := checkRun_sound hq2.2
   simp only [Bool.and_eq_true, decide_eq_true_eq] at hq3
   obtain ⟨b4, o', hs, hq4⟩ := checkStep_sound hq3.2
-  have hq4' := of_decide_eq_true hq4
-  exact ⟨b1, b2, b3, b4, o', hv1, hq1.1.evPre 0, hv2, hq2.1.1, hq2.1.2.evPre 0, hv3, hq3.1.1, hq3.1.2, hs,
-    hq4'.1, hq4'.2⟩
+  simp only [Bool.and_eq_true, decide_eq_true_eq] at hq4
+  obtain ⟨b5, hv5, hq5⟩ := checkRun_sound hq4.2
+  obtain ⟨g1, g2, g3, g4⟩ := hq3.1
+  obtain ⟨k1, k2, k3⟩ := hq4.1
+  exact ⟨b1, b2, b3, b4, b5, o', hv1, hq1.1.evPre 0, hv2, hq2.1.1, hq2.1.2.evPre 0, hv3, g1, g2, g3, g4, hs,
+    k1, k2, k3, hv5, of_decide_eq_true hq5⟩
+
+/-- **Race with the sweeper, the id IS taken out of the ledger** (the fix of `weight_of` at work against the sweeper).
+    The call is issued while key 1 is alive and charged 29 (`Ev.pre`); the clock passes the deadline BEFORE
+    `upsert.update` runs, and a sweeper tick gets as far as its `kw.remove` action: the stored value has expired by
+    its own deadline, so id 1 rightly leaves `key_weights`.  Then `upsert.update` (the store entry is still there),
+    `upsert.weight_of` (no charge: NO weight is handed on — before the fix `0 - 24`); the sweeper finishes its tick
+    (it holds the expiry shard till then); `ttl.delete` meets `Act.pre` and answers `Accepted` on the spot: no panic,
+    nothing sent. -/
+theorem C17_layerB_race_sweeper_uncharged_fixed :
+    ∃ b1 b2 b3 b4 o', ValidRunB (c17B 2) c17RaceSetup b1 ∧
+      Ev.pre b1.g (.upsert 0 1 none none none true) ∧
+      ValidRunB b1 (acts [.issue 0 (.upsert 1 none none none true), .client 0, .advance 3000000000, .sweeper none,
+        .sweeper (some 1), .sweeper none]) b2 ∧
+      b2.cl[0]? = some (.upUpdate 1 none none none true) ∧ (b2.sw matches .sub _ _ _ 1 _) = true ∧
+      b2.g.adm.kw.get? 1 = none ∧
+      b2.g.store.get? 1 = some { value := 10, id := 1, expiry := some 4000000000, soft := false } ∧
+      ValidRunB b2 (acts [.client 0, .client 0, .sweeper none, .sweeper none, .sweeper none]) b3 ∧
+      b3.cl[0]? = some (.upTtlDelete 1 4000000000 none) ∧ Act.pre b3 (.client 0) ∧
+      stepB b3 (.client 0) {} = .ok (b4, o') ∧
+      b4.cl[0]? = some .idle ∧ b4.res[0]? = some [.ack 1 .accepted, .ack 0 .pending] ∧ PanicFree b4 ∧
+      b4.g.acks = [.accepted, .accepted] ∧ b4.g.queue = [] ∧ b4.g.adm.kw = [] ∧ b4.g.adm.used = 0 ∧
+      b4.g.ttl = [] := by
+  have h : checkRun (c17B 2) c17RaceSetup (fun b1 => decide (key1Charged29 b1) &&
+      checkRun b1 (acts [.issue 0 (.upsert 1 none none none true), .client 0, .advance 3000000000, .sweeper none,
+          .sweeper (some 1), .sweeper none]) (fun b2 =>
+        decide (b2.cl[0]? = some (.upUpdate 1 none none none true) ∧ (b2.sw matches .sub _ _ _ 1 _) = true ∧
+          b2.g.adm.kw.get? 1 = none ∧
+          b2.g.store.get? 1 = some { value := 10, id := 1, expiry := some 4000000000, soft := false }) &&
+        checkRun b2 (acts [.client 0, .client 0, .sweeper none, .sweeper none, .sweeper none]) (fun b3 =>
+          decide (b3.cl[0]? = some (.upTtlDelete 1 4000000000 none) ∧ Act.pre b3 (.client 0)) &&
+          checkStep b3 (.client 0) {} (fun b4 => decide (
+            b4.cl[0]? = some .idle ∧ b4.res[0]? = some [.ack 1 .accepted, .ack 0 .pending] ∧ PanicFree b4 ∧
+            b4.g.acks = [.accepted, .accepted] ∧ b4.g.queue = [] ∧ b4.g.adm.kw = [] ∧ b4.g.adm.used = 0 ∧
+            b4.g.ttl = []))))) = true := by
+    decide +kernel
+  obtain ⟨b1, hv1, hq1⟩ := checkRun_sound h
+  simp only [Bool.and_eq_true, decide_eq_true_eq] at hq1
+  obtain ⟨b2, hv2, hq2⟩ := checkRun_sound hq1.2
+  simp only [Bool.and_eq_true, decide_eq_true_eq] at hq2
+  obtain ⟨b3, hv3, hq3⟩ := checkRun_sound hq2.2
+  simp only [Bool.and_eq_true, decide_eq_true_eq] at hq3
+  obtain ⟨b4, o', hs, hq4⟩ := checkStep_sound hq3.2
+  obtain ⟨g1, g2, g3, g4⟩ := hq2.1
+  exact ⟨b1, b2, b3, b4, o', hv1, hq1.1.evPre 0, hv2, g1, g2, g3, g4, hv3, hq3.1.1, hq3.1.2, hs,
+    of_decide_eq_true hq4⟩
 
 /-- limit 40: key 1 (29) and another key of weight 20 do not fit together -/
 def c17BSmall (n : Nat) : BState := BState.init { c17Cfg with maxWeight := 40 } 3000000000 [1, 2, 3, 4] n
 
-/-- **Race with an eviction** — no clock, and nobody but the caller names key 1.  Limit 40; key 1 charged 29; client 1
-    has sent `put_with_weight(2, 20, 20)`.  Client 0 issues `put_or_update(1).remove_time_to_live()` and runs its
+/-- **Race with an eviction — the run of the former `C17_layerB_counterexample_race_eviction`, after the fix.**
+    No clock, and nobody but the caller names key 1.  Limit 40; key 1 charged 29; client 1 has sent
+    `put_with_weight(2, 20, 20)`.  Client 0 issues `put_or_update(1).remove_time_to_live()` and runs its
     `upsert.update` (`Ev.pre` of Layer A holds at both instants).  The worker executes the put of key 2: no room, it
     samples key 1 as the victim and takes id 1 out of `key_weights` (`kw.remove`; the store entry is still there).
-    `upsert.weight_of` finds no charge: `0 - 24`; the caller panics. -/
-theorem C17_layerB_counterexample_race_eviction :
+    `upsert.weight_of` finds no charge and hands on NO weight (before the fix: `0 - 24`); the `ttl.delete` action —
+    the one that panicked — meets `Act.pre`, removes the index entry and answers `Accepted` on the spot:
+    no `Out.panic`, nothing sent. -/
+theorem C17_layerB_race_eviction_fixed :
     ∃ b1 b2 b3 b4 o', ValidRunB (c17BSmall 2) (c17RaceSetup ++ acts (putActs 1 2 20 20 none)) b1 ∧
       Ev.pre b1.g (.upsert 0 1 none none none true) ∧
       ValidRunB b1 (acts [.issue 0 (.upsert 1 none none none true), .client 0]) b2 ∧
@@ -1123,22 +1295,25 @@ theorem C17_layerB_counterexample_race_eviction :
       ValidRunB b2 (acts [.client 0, .worker, .worker] ++
         [(.worker, { dk := [false] }), (.worker, { ids := [1], dk := [false], pops := [some 1] })] ++
         acts [.worker, .client 0]) b3 ∧
-      (b3.w matches .evSub _ _ _ 1 _) = true ∧
+      (b3.w matches .evSub _ _ _ 1 _) = true ∧ b3.g.adm.kw.get? 1 = none ∧
       b3.g.store.get? 1 = some { value := 10, id := 1, expiry := none, soft := false } ∧
-      b3.cl[0]? = some (.upTtlDelete 1 4000000000 (some (-24))) ∧ ¬ Act.pre b3 (.client 0) ∧
+      b3.cl[0]? = some (.upTtlDelete 1 4000000000 none) ∧ Act.pre b3 (.client 0) ∧
       stepB b3 (.client 0) {} = .ok (b4, o') ∧
-      b4.res[0]? = some [.panic .weightNotPositive, .ack 0 .pending] ∧ ¬ PanicFree b4 := by
+      b4.cl[0]? = some .idle ∧ b4.res[0]? = some [.ack 2 .accepted, .ack 0 .pending] ∧ PanicFree b4 ∧
+      b4.g.acks = [.accepted, .pending, .accepted] ∧ b4.g.queue = b3.g.queue ∧ b4.g.queue = [] ∧ b4.g.ttl = [] := by
   have h : checkRun (c17BSmall 2) (c17RaceSetup ++ acts (putActs 1 2 20 20 none)) (fun b1 => decide (key1Charged29 b1) &&
       checkRun b1 (acts [.issue 0 (.upsert 1 none none none true), .client 0]) (fun b2 =>
         decide (b2.cl[0]? = some (.upUpdate 1 none none none true) ∧ key1Charged29 b2) &&
         checkRun b2 (acts [.client 0, .worker, .worker] ++
           [(.worker, { dk := [false] }), (.worker, { ids := [1], dk := [false], pops := [some 1] })] ++
           acts [.worker, .client 0]) (fun b3 =>
-          decide ((b3.w matches .evSub _ _ _ 1 _) = true ∧
+          decide ((b3.w matches .evSub _ _ _ 1 _) = true ∧ b3.g.adm.kw.get? 1 = none ∧
             b3.g.store.get? 1 = some { value := 10, id := 1, expiry := none, soft := false } ∧
-            b3.cl[0]? = some (.upTtlDelete 1 4000000000 (some (-24))) ∧ ¬ Act.pre b3 (.client 0)) &&
+            b3.cl[0]? = some (.upTtlDelete 1 4000000000 none) ∧ Act.pre b3 (.client 0)) &&
           checkStep b3 (.client 0) {} (fun b4 => decide (
-            b4.res[0]? = some [.panic .weightNotPositive, .ack 0 .pending] ∧ ¬ PanicFree b4))))) = true := by
+            b4.cl[0]? = some .idle ∧ b4.res[0]? = some [.ack 2 .accepted, .ack 0 .pending] ∧ PanicFree b4 ∧
+            b4.g.acks = [.accepted, .pending, .accepted] ∧ b4.g.queue = b3.g.queue ∧ b4.g.queue = [] ∧
+            b4.g.ttl = []))))) = true := by
     decide +kernel
   obtain ⟨b1, hv1, hq1⟩ := checkRun_sound h
   simp only [Bool.and_eq_true, decide_eq_true_eq] at hq1
@@ -1147,32 +1322,39 @@ theorem C17_layerB_counterexample_race_eviction :
   obtain ⟨b3, hv3, hq3⟩ := checkRun_sound hq2.2
   simp only [Bool.and_eq_true, decide_eq_true_eq] at hq3
   obtain ⟨b4, o', hs, hq4⟩ := checkStep_sound hq3.2
-  have hq4' := of_decide_eq_true hq4
-  obtain ⟨g1, g2, g3, g4⟩ := hq3.1
-  exact ⟨b1, b2, b3, b4, o', hv1, hq1.1.evPre 0, hv2, hq2.1.1, hq2.1.2.evPre 0, hv3, g1, g2, g3, g4, hs,
-    hq4'.1, hq4'.2⟩
+  obtain ⟨g1, g2, g3, g4, g5⟩ := hq3.1
+  exact ⟨b1, b2, b3, b4, o', hv1, hq1.1.evPre 0, hv2, hq2.1.1, hq2.1.2.evPre 0, hv3, g1, g2, g3, g4, g5, hs,
+    of_decide_eq_true hq4⟩
 
-/-- **Race with a delete.**  Key 1 charged 29; client 0 issues `put_or_update(1).remove_time_to_live()` and runs its
-    `upsert.update` (`Ev.pre` holds at both instants).  Only THEN client 1 calls `delete(1)`; the worker executes it up
-    to `kw.remove`.  `upsert.weight_of` finds no charge: `0 - 24`; the caller panics. -/
-theorem C17_layerB_counterexample_race_delete :
+/-- **Race with a delete — the run of the former `C17_layerB_counterexample_race_delete`, after the fix.**
+    Key 1 charged 29; client 0 issues `put_or_update(1).remove_time_to_live()` and runs its `upsert.update`
+    (`Ev.pre` holds at both instants).  Only THEN client 1 calls `delete(1)`; the worker executes it up to
+    `kw.remove`.  `upsert.weight_of` finds no charge and hands on NO weight (before the fix: `0 - 24`); the
+    `ttl.delete` action — the one that panicked — meets `Act.pre` and answers `Accepted` on the spot:
+    no `Out.panic`, nothing sent. -/
+theorem C17_layerB_race_delete_fixed :
     ∃ b1 b2 b3 b4 o', ValidRunB (c17B 2) c17RaceSetup b1 ∧
       Ev.pre b1.g (.upsert 0 1 none none none true) ∧
       ValidRunB b1 (acts [.issue 0 (.upsert 1 none none none true), .client 0]) b2 ∧
       b2.cl[0]? = some (.upUpdate 1 none none none true) ∧ Ev.pre b2.g (.upsert 0 1 none none none true) ∧
       ValidRunB b2 (acts [.client 0, .issue 1 (.delete 1), .client 1, .client 1, .client 1, .worker, .worker, .worker,
         .client 0]) b3 ∧
-      b3.cl[0]? = some (.upTtlDelete 1 4000000000 (some (-24))) ∧ ¬ Act.pre b3 (.client 0) ∧
+      b3.g.adm.kw.get? 1 = none ∧
+      b3.cl[0]? = some (.upTtlDelete 1 4000000000 none) ∧ Act.pre b3 (.client 0) ∧
       stepB b3 (.client 0) {} = .ok (b4, o') ∧
-      b4.res[0]? = some [.panic .weightNotPositive, .ack 0 .pending] ∧ ¬ PanicFree b4 := by
+      b4.cl[0]? = some .idle ∧ b4.res[0]? = some [.ack 2 .accepted, .ack 0 .pending] ∧ PanicFree b4 ∧
+      b4.g.acks = [.accepted, .pending, .accepted] ∧ b4.g.queue = b3.g.queue ∧ b4.g.queue = [] ∧ b4.g.ttl = [] := by
   have h : checkRun (c17B 2) c17RaceSetup (fun b1 => decide (key1Charged29 b1) &&
       checkRun b1 (acts [.issue 0 (.upsert 1 none none none true), .client 0]) (fun b2 =>
         decide (b2.cl[0]? = some (.upUpdate 1 none none none true) ∧ key1Charged29 b2) &&
         checkRun b2 (acts [.client 0, .issue 1 (.delete 1), .client 1, .client 1, .client 1, .worker, .worker, .worker,
           .client 0]) (fun b3 =>
-          decide (b3.cl[0]? = some (.upTtlDelete 1 4000000000 (some (-24))) ∧ ¬ Act.pre b3 (.client 0)) &&
+          decide (b3.g.adm.kw.get? 1 = none ∧
+            b3.cl[0]? = some (.upTtlDelete 1 4000000000 none) ∧ Act.pre b3 (.client 0)) &&
           checkStep b3 (.client 0) {} (fun b4 => decide (
-            b4.res[0]? = some [.panic .weightNotPositive, .ack 0 .pending] ∧ ¬ PanicFree b4))))) = true := by
+            b4.cl[0]? = some .idle ∧ b4.res[0]? = some [.ack 2 .accepted, .ack 0 .pending] ∧ PanicFree b4 ∧
+            b4.g.acks = [.accepted, .pending, .accepted] ∧ b4.g.queue = b3.g.queue ∧ b4.g.queue = [] ∧
+            b4.g.ttl = []))))) = true := by
     decide +kernel
   obtain ⟨b1, hv1, hq1⟩ := checkRun_sound h
   simp only [Bool.and_eq_true, decide_eq_true_eq] at hq1
@@ -1181,9 +1363,9 @@ theorem C17_layerB_counterexample_race_delete :
   obtain ⟨b3, hv3, hq3⟩ := checkRun_sound hq2.2
   simp only [Bool.and_eq_true, decide_eq_true_eq] at hq3
   obtain ⟨b4, o', hs, hq4⟩ := checkStep_sound hq3.2
-  have hq4' := of_decide_eq_true hq4
-  exact ⟨b1, b2, b3, b4, o', hv1, hq1.1.evPre 0, hv2, hq2.1.1, hq2.1.2.evPre 0, hv3, hq3.1.1, hq3.1.2, hs,
-    hq4'.1, hq4'.2⟩
+  obtain ⟨g1, g2, g3⟩ := hq3.1
+  exact ⟨b1, b2, b3, b4, o', hv1, hq1.1.evPre 0, hv2, hq2.1.1, hq2.1.2.evPre 0, hv3, g1, g2, g3, hs,
+    of_decide_eq_true hq4⟩
 
 /-- **The documented precondition "a value when the key is absent" is not stable either.**
     `put_or_update(1).weight(7)` (no value) is issued while key 1 is present (`Ev.pre` of Layer A holds); before its
@@ -1211,6 +1393,567 @@ theorem C17_layerB_counterexample_race_value_missing :
   obtain ⟨b4, o', hs, hq4⟩ := checkStep_sound hq3.2
   exact ⟨b1, b3, b4, o', hv1, evPre_weight_only hq1.1.1 (by decide) (by decide), hv3, hq3.1.1, hq3.1.2, hs,
     of_decide_eq_true hq4⟩
+
+/-- **What the fix does NOT cover: the charge is LOWERED, not removed, in the middle of the call** (the sequential
+    defect §8-D4 — a key charged less than 25 — reached by a race).  Key 1 charged 29; client 0 issues
+    `put_or_update(1).remove_time_to_live()` and runs its `upsert.update` (`Ev.pre` of Layer A holds at both instants).
+    Only THEN client 1 calls `put_or_update(1).weight(5)` (valid: the key is present, 5 is a positive `i64`), and the
+    worker applies `UpdateWeight(1, 5)`.  `upsert.weight_of` of client 0 finds the id CHARGED 5 and computes `5 - 24`;
+    the `ttl.delete` action panics in the caller.  Every action of every thread before the panic meets `Act.pre`.
+    (`ttlChargeOk` fails at client 0's `upsert.weight_of`: the hypothesis of
+    `C17_layerB_ttl_only_upsert_safe_under_races` about a charged id cannot be dropped, and the caller cannot
+    establish it — it is about an instant in the middle of its own call.) -/
+theorem C17_layerB_counterexample_race_weight_update :
+    ∃ b1 b2 b3 b4 o', ValidRunB (c17B 2) c17RaceSetup b1 ∧
+      Ev.pre b1.g (.upsert 0 1 none none none true) ∧
+      ValidRunB b1 (acts [.issue 0 (.upsert 1 none none none true), .client 0]) b2 ∧
+      b2.cl[0]? = some (.upUpdate 1 none none none true) ∧ Ev.pre b2.g (.upsert 0 1 none none none true) ∧
+      Ev.pre b2.g (.upsert 1 1 none (some 5) none false) ∧
+      ValidRunB b2 (acts [.client 0, .issue 1 (.upsert 1 none (some 5) none false), .client 1, .client 1, .client 1,
+        .client 1, .worker, .worker, .client 0]) b3 ∧
+      b3.g.adm.kw.get? 1 = some { key := 1, hash := 1, weight := 5 } ∧ b3.g.acks = [.accepted, .accepted] ∧
+      b3.cl[0]? = some (.upTtlDelete 1 4000000000 (some (-19))) ∧ ¬ Act.pre b3 (.client 0) ∧
+      stepB b3 (.client 0) {} = .ok (b4, o') ∧
+      b4.res[0]? = some [.panic .weightNotPositive, .ack 0 .pending] ∧ ¬ PanicFree b4 := by
+  have h : checkRun (c17B 2) c17RaceSetup (fun b1 => decide (key1Charged29 b1) &&
+      checkRun b1 (acts [.issue 0 (.upsert 1 none none none true), .client 0]) (fun b2 =>
+        decide (b2.cl[0]? = some (.upUpdate 1 none none none true) ∧ key1Charged29 b2) &&
+        checkRun b2 (acts [.client 0, .issue 1 (.upsert 1 none (some 5) none false), .client 1, .client 1, .client 1,
+          .client 1, .worker, .worker, .client 0]) (fun b3 =>
+          decide (b3.g.adm.kw.get? 1 = some { key := 1, hash := 1, weight := 5 } ∧
+            b3.g.acks = [.accepted, .accepted] ∧
+            b3.cl[0]? = some (.upTtlDelete 1 4000000000 (some (-19))) ∧ ¬ Act.pre b3 (.client 0)) &&
+          checkStep b3 (.client 0) {} (fun b4 => decide (
+            b4.res[0]? = some [.panic .weightNotPositive, .ack 0 .pending] ∧ ¬ PanicFree b4))))) = true := by
+    decide +kernel
+  obtain ⟨b1, hv1, hq1⟩ := checkRun_sound h
+  simp only [Bool.and_eq_true, decide_eq_true_eq] at hq1
+  obtain ⟨b2, hv2, hq2⟩ := checkRun_sound hq1.2
+  simp only [Bool.and_eq_true, decide_eq_true_eq] at hq2
+  obtain ⟨b3, hv3, hq3⟩ := checkRun_sound hq2.2
+  simp only [Bool.and_eq_true, decide_eq_true_eq] at hq3
+  obtain ⟨b4, o', hs, hq4⟩ := checkStep_sound hq3.2
+  have hq4' := of_decide_eq_true hq4
+  obtain ⟨g1, g2, g3, g4⟩ := hq3.1
+  exact ⟨b1, b2, b3, b4, o', hv1, hq1.1.evPre 0, hv2, hq2.1.1, hq2.1.2.evPre 0,
+    evPre_weight_only hq2.1.2.1 (by decide) (by decide), hv3, g1, g2, g3, g4, hs, hq4'.1, hq4'.2⟩
+
+/-! ## What the fix buys: a pure time-to-live change is safe under races
+
+  `put_or_update(k)` that only adds, changes or removes a time-to-live (no value, no explicit weight).  Its side
+  conditions are: at `upsert.update` the key is present (and `now + ttl` is representable); at `upsert.weight_of` the
+  key id is NOT CHARGED (no weight is due, nothing is asserted on) or it is charged and `charge ∓
+  ttl_ticker_entry_size` is a positive `i64`.  Nothing else: whatever the other threads do between and after these
+  two actions — delete the key, evict it, expire it, update its weight, shut the cache down —, no later action of the
+  call panics.  Before the fix of `weight_of` the second condition had no "not charged" alternative, and another
+  thread could falsify it after `upsert.update` had already committed the call. -/
+
+/-- no result recorded so far FOR CLIENT `i` is a panic -/
+def PanicFreeAt (b : BState) (i : Nat) : Prop := ∀ out ∈ b.res.getD i [], out.isPanic = false
+
+instance (b : BState) (i : Nat) : Decidable (PanicFreeAt b i) :=
+  inferInstanceAs (Decidable (∀ out ∈ b.res.getD i [], out.isPanic = false))
+
+/-- a stretch of a run in which no NEW request is issued for client `i`: client `i` goes on with the call it is in,
+    every other thread (and every other client, with new requests) moves freely -/
+inductive CallRun (i : Nat) : BState → BState → Prop
+  | nil (b : BState) : CallRun i b b
+  | cons {b b' b'' : BState} {a : Act} {o o' : Oracle} : (∀ r, a ≠ .issue i r) →
+      stepB b a o = .ok (b', o') → CallRun i b' b'' → CallRun i b b''
+
+/-- **The side condition of a pure time-to-live change at `upsert.weight_of`**, in the state in which that action
+    runs: the key id is not charged, or `charge + ttl_ticker_entry_size` (a time-to-live is added) /
+    `charge - ttl_ticker_entry_size` (it is removed) is a positive `i64`; none if the deadline only moves. -/
+def ttlChargeOk (g : State) (id : Nat) (old new : Option Nat) : Prop :=
+  match g.adm.kw.get? id with
+  | none => True
+  | some wk =>
+    match typeOfExpiryUpdate old new with
+    | .added _ => inI64 (wk.weight + g.cfg.ttlEntry) = true ∧ 0 < wk.weight + g.cfg.ttlEntry
+    | .deleted _ => inI64 (wk.weight - g.cfg.ttlEntry) = true ∧ g.cfg.ttlEntry < wk.weight
+    | _ => True
+
+instance (g : State) (id : Nat) (old new : Option Nat) : Decidable (ttlChargeOk g id old new) := by
+  unfold ttlChargeOk
+  split
+  · infer_instance
+  · split <;> infer_instance
+
+theorem ttlChargeOk_of_uncharged {g : State} {id : Nat} (old new : Option Nat) (h : g.adm.kw.get? id = none) :
+    ttlChargeOk g id old new := by
+  simp [ttlChargeOk, h]
+
+/-- the positions of a `put_or_update` past `upsert.weight_of` whose local weight — if there is one — is a positive
+    `i64`, the send, and the end of the call -/
+def CPc.upTail : CPc → Prop
+  | .upTtlPut _ _ uw => uwOk uw
+  | .upTtlDelete _ _ uw => uwOk uw
+  | .upTtlRemove _ _ _ uw => uwOk uw
+  | .upTtlInsert _ _ uw => uwOk uw
+  | .send _ => True
+  | .idle => True
+  | _ => False
+
+/-- at these positions the side condition of the next action holds in EVERY state -/
+theorem CPc.upTail.pre {pc : CPc} (h : pc.upTail) (g : State) : pc.pre g := by
+  cases pc <;> first | exact h | trivial | exact h.elim
+
+theorem upAfterIndex_upTail {b0 : BState} {i id : Nat} {uw : Option Int} (hi : i < b0.cl.length) (hu : uwOk uw) :
+    ∃ pc', (upAfterIndex b0 i id uw).cl[i]? = some pc' ∧ pc'.upTail := by
+  unfold upAfterIndex
+  cases uw with
+  | none => exact ⟨.idle, by simp [spotFinish, finishCall, hi], trivial⟩
+  | some x =>
+    obtain ⟨h1, h2⟩ := hu
+    have h3 : ¬ x ≤ 0 := by omega
+    simp only [h1, Bool.not_true, Bool.false_eq_true, if_false, h3]
+    exact ⟨.send (.updateWeight id x), by simp [setClient, hi], trivial⟩
+
+/-- the tail is closed under the client's own actions -/
+theorem upTail_step {b b' : BState} {i : Nat} {pc : CPc} {o o' : Oracle} (hpc : b.cl[i]? = some pc) (ht : pc.upTail)
+    (h : stepB b (.client i) o = .ok (b', o')) : ∃ pc', b'.cl[i]? = some pc' ∧ pc'.upTail := by
+  have hi : i < b.cl.length := by
+    rcases List.getElem?_eq_some_iff.mp hpc with ⟨hi, _⟩; exact hi
+  cases pc <;> try exact ht.elim
+  case idle => simp only [stepB, clientAct, hpc] at h; cases h
+  case send cmd =>
+    simp only [stepB, clientAct, hpc] at h
+    split at h
+    · rename_i b1 hs
+      simp only [Except.ok.injEq, Prod.mk.injEq] at h; obtain ⟨rfl, rfl⟩ := h
+      unfold sendAct at hs
+      simp only [] at hs
+      split at hs
+      · simp only [Except.ok.injEq] at hs; subst hs
+        exact ⟨.idle, by simp [finishCall, hi], trivial⟩
+      · split at hs
+        · cases hs
+        · simp only [Except.ok.injEq] at hs; subst hs
+          exact ⟨.idle, by simp [finishCall, hi], trivial⟩
+    · cases h
+  case upTtlPut id e uw =>
+    simp only [stepB, clientAct, hpc] at h
+    split at h
+    · cases h
+    · simp only [Except.ok.injEq, Prod.mk.injEq] at h; obtain ⟨rfl, rfl⟩ := h
+      exact upAfterIndex_upTail (by simpa using hi) ht
+  case upTtlDelete id e uw =>
+    simp only [stepB, clientAct, hpc] at h
+    split at h
+    · cases h
+    · simp only [Except.ok.injEq, Prod.mk.injEq] at h; obtain ⟨rfl, rfl⟩ := h
+      exact upAfterIndex_upTail (by simpa using hi) ht
+  case upTtlRemove id old new uw =>
+    simp only [stepB, clientAct, hpc] at h
+    split at h
+    · cases h
+    · simp only [Except.ok.injEq, Prod.mk.injEq] at h; obtain ⟨rfl, rfl⟩ := h
+      exact ⟨.upTtlInsert id new uw, by simp [setClient, hi], ht⟩
+  case upTtlInsert id new uw =>
+    simp only [stepB, clientAct, hpc] at h
+    split at h
+    · cases h
+    · simp only [Except.ok.injEq, Prod.mk.injEq] at h; obtain ⟨rfl, rfl⟩ := h
+      exact upAfterIndex_upTail (by simpa using hi) ht
+
+theorem getD_set_ne {α : Type} (l : List α) {i j : Nat} (x d : α) (h : j ≠ i) : (l.set j x).getD i d = l.getD i d := by
+  simp [List.getD, List.getElem?_set_ne h]
+
+/-- only client `i`'s own actions record results for client `i` -/
+theorem step_res_other {b b' : BState} {a : Act} {o o' : Oracle} {i : Nat} (h : stepB b a o = .ok (b', o'))
+    (hne : a ≠ .client i) : b'.res.getD i [] = b.res.getD i [] := by
+  cases a with
+  | issue j r =>
+    simp only [stepB] at h
+    split at h
+    · rename_i b1 hi
+      simp only [Except.ok.injEq, Prod.mk.injEq] at h; obtain ⟨rfl, rfl⟩ := h
+      rw [(issue_frame hi).1]
+    · cases h
+  | client j =>
+    have hj : j ≠ i := by intro e; subst e; exact hne rfl
+    obtain ⟨pc, _, hres⟩ := clientAct_res h
+    rcases hres with ⟨_, h1 | ⟨out, _, h1⟩⟩ | ⟨_, p, h1⟩
+    · rw [h1]
+    · rw [h1, getD_set_ne _ _ _ hj]
+    · rw [h1, getD_set_ne _ _ _ hj]
+  | worker => rw [wtrans_res (workerAct_trans h)]
+  | sweeper v =>
+    simp only [stepB] at h
+    split at h
+    · rename_i b1 hs
+      simp only [Except.ok.injEq, Prod.mk.injEq] at h; obtain ⟨rfl, rfl⟩ := h
+      rw [(strans_bg (sweeperAct_trans hs)).1]
+    · cases h
+  | consumer =>
+    simp only [stepB] at h
+    split at h
+    · simp only [Except.ok.injEq, Prod.mk.injEq] at h; obtain ⟨rfl, rfl⟩ := h; rfl
+    · cases h
+  | advance d =>
+    simp only [stepB, Except.ok.injEq, Prod.mk.injEq] at h; obtain ⟨rfl, rfl⟩ := h; rfl
+
+/-- an action of client `i` that meets `Act.pre` records no panic for client `i` -/
+theorem step_res_own {b b' : BState} {o o' : Oracle} {i : Nat} (hpre : Act.pre b (.client i))
+    (h : stepB b (.client i) o = .ok (b', o')) (hp : PanicFreeAt b i) : PanicFreeAt b' i := by
+  obtain ⟨pc, hpc, hres⟩ := clientAct_res h
+  have hq : pc.pre b.g := by
+    have : clientPre b.g b.cl[i]? := hpre
+    rw [hpc] at this; exact this
+  rcases hres with ⟨_, h1 | ⟨out, ho, h1⟩⟩ | ⟨hn, _⟩
+  · intro x hx; rw [h1] at hx; exact hp x hx
+  · intro x hx
+    rw [h1] at hx
+    by_cases hi : i < b.res.length
+    · simp only [List.getD, List.getElem?_set_self hi, Option.getD_some] at hx
+      rcases List.mem_cons.mp hx with rfl | hx
+      · exact ho
+      · exact hp x hx
+    · have : (b.res.set i (out :: b.res.getD i [])).getD i [] = b.res.getD i [] := by
+        simp [List.getD, hi]
+      rw [this] at hx; exact hp x hx
+  · exact absurd hq hn
+
+theorem OthersRun.panicFreeAt {i : Nat} {b b' : BState} (h : OthersRun i b b') (hp : PanicFreeAt b i) :
+    PanicFreeAt b' i := by
+  induction h with
+  | nil b => exact hp
+  | cons h1 _ hs _ ih =>
+    apply ih
+    intro x hx; rw [step_res_other hs h1] at hx; exact hp x hx
+
+/-- from a position of the tail on, every action of client `i` meets `Act.pre`, and none records a panic — along
+    every run in which no new request is issued for client `i` -/
+theorem upTail_callRun {i : Nat} {b b' : BState} (h : CallRun i b b') :
+    (∃ pc, b.cl[i]? = some pc ∧ pc.upTail) →
+    (∃ pc, b'.cl[i]? = some pc ∧ pc.upTail) ∧ Act.pre b' (.client i) ∧ (PanicFreeAt b i → PanicFreeAt b' i) := by
+  induction h with
+  | nil b =>
+    rintro ⟨pc, hpc, ht⟩
+    refine ⟨⟨pc, hpc, ht⟩, ?_, id⟩
+    show clientPre b.g b.cl[i]?
+    rw [hpc]; exact ht.pre _
+  | @cons b b1 b2 a o o' hni hs _ ih =>
+    rintro ⟨pc, hpc, ht⟩
+    by_cases ha : a = .client i
+    · subst ha
+      have hpre : Act.pre b (.client i) := by
+        show clientPre b.g b.cl[i]?
+        rw [hpc]; exact ht.pre _
+      obtain ⟨r1, r2, r3⟩ := ih (upTail_step hpc ht hs)
+      exact ⟨r1, r2, fun hp => r3 (step_res_own hpre hs hp)⟩
+    · obtain ⟨r1, r2, r3⟩ := ih ⟨pc, by rw [other_threads_keep_pc hs ha hni]; exact hpc, ht⟩
+      refine ⟨r1, r2, fun hp => r3 ?_⟩
+      intro x hx; rw [step_res_other hs ha] at hx; exact hp x hx
+
+/-- `upsert.weight_of` of a pure time-to-live change whose side condition holds: the call moves into the tail (or ends,
+    answered `Accepted`, when the expiry index needs no change) -/
+theorem weightOf_upTail {b b' : BState} {i id : Nat} {old new : Option Nat} {o o' : Oracle}
+    (hpc : b.cl[i]? = some (.upWeightOf id none old new)) (hc : ttlChargeOk b.g id old new)
+    (h : stepB b (.client i) o = .ok (b', o')) : ∃ pc', b'.cl[i]? = some pc' ∧ pc'.upTail := by
+  have hi : i < b.cl.length := by
+    rcases List.getElem?_eq_some_iff.mp hpc with ⟨hi, _⟩; exact hi
+  simp only [stepB, clientAct, hpc] at h
+  unfold ttlChargeOk at hc
+  cases ht : typeOfExpiryUpdate old new with
+  | nothing =>
+    simp only [ht, Except.ok.injEq, Prod.mk.injEq] at h; obtain ⟨rfl, rfl⟩ := h
+    exact upAfterIndex_upTail hi trivial
+  | added n =>
+    simp only [ht, Except.ok.injEq, Prod.mk.injEq] at h; obtain ⟨rfl, rfl⟩ := h
+    cases hk : b.g.adm.kw.get? id with
+    | none => exact ⟨.upTtlPut id n none, by simp [setClient, hi], by simp [CPc.upTail, uwOk]⟩
+    | some wk =>
+      simp only [hk, ht] at hc
+      exact ⟨.upTtlPut id n (some (wk.weight + b.g.cfg.ttlEntry)), by simp [setClient, hi], hc⟩
+  | deleted e =>
+    simp only [ht, Except.ok.injEq, Prod.mk.injEq] at h; obtain ⟨rfl, rfl⟩ := h
+    cases hk : b.g.adm.kw.get? id with
+    | none => exact ⟨.upTtlDelete id e none, by simp [setClient, hi], by simp [CPc.upTail, uwOk]⟩
+    | some wk =>
+      simp only [hk, ht] at hc
+      exact ⟨.upTtlDelete id e (some (wk.weight - b.g.cfg.ttlEntry)), by simp [setClient, hi], hc.1, by omega⟩
+  | updated e n =>
+    simp only [ht, Except.ok.injEq, Prod.mk.injEq] at h; obtain ⟨rfl, rfl⟩ := h
+    exact ⟨.upTtlRemove id e n none, by simp [setClient, hi], by simp [CPc.upTail, uwOk]⟩
+
+/-- `upsert.update` of a pure time-to-live change that meets `Act.pre`: the key is present, no result is recorded, and
+    the call moves on to `upsert.weight_of` with the id and the old deadline of the entry it found -/
+theorem upUpdate_ttl_only {b b' : BState} {i k : Nat} {ttl : Option Nat} {rm : Bool} {o o' : Oracle}
+    (hpc : b.cl[i]? = some (.upUpdate k none none ttl rm)) (hpre : Act.pre b (.client i))
+    (h : stepB b (.client i) o = .ok (b', o')) :
+    ∃ e new, b.g.store.get? k = some e ∧ b'.cl[i]? = some (.upWeightOf e.id none e.expiry new) ∧ b'.res = b.res := by
+  have hi : i < b.cl.length := by
+    rcases List.getElem?_eq_some_iff.mp hpc with ⟨hi, _⟩; exact hi
+  have hq : CPc.pre b.g (.upUpdate k none none ttl rm) := by
+    have : clientPre b.g b.cl[i]? := hpre
+    rw [hpc] at this; exact this
+  simp only [CPc.pre] at hq
+  cases hk : b.g.store.get? k with
+  | none => rw [hk] at hq; simp [upUpdatePre] at hq
+  | some e =>
+    rw [hk] at hq
+    simp only [upUpdatePre] at hq
+    simp only [stepB, clientAct, hpc] at h
+    split at h
+    · cases h
+    · simp only [hk] at h
+      cases rm with
+      | true =>
+        simp only [if_true, Except.ok.injEq, Prod.mk.injEq] at h; obtain ⟨rfl, rfl⟩ := h
+        exact ⟨e, none, rfl, by simp [setClient, hi], rfl⟩
+      | false =>
+        cases ttl with
+        | none =>
+          simp only [Bool.false_eq_true, if_false, Except.ok.injEq, Prod.mk.injEq] at h; obtain ⟨rfl, rfl⟩ := h
+          exact ⟨e, e.expiry, rfl, by simp [setClient, hi], rfl⟩
+        | some t =>
+          obtain ⟨x, hx⟩ := (timeOk_iff _ _).mp (hq rfl)
+          simp only [Bool.false_eq_true, if_false, hx, Except.ok.injEq, Prod.mk.injEq] at h; obtain ⟨rfl, rfl⟩ := h
+          exact ⟨e, some x, rfl, by simp [setClient, hi], rfl⟩
+
+/-- **A pure time-to-live change is safe under races.**  Client `i` stands at `upsert.update` of a `put_or_update(k)`
+    that gives no value and no weight (it adds, moves or removes a time-to-live); `Act.pre` holds there (the key is
+    present; `now + ttl` is representable).  The action runs; THE OTHER THREADS DO ANYTHING (`OthersRun i`: any number
+    of actions of the worker, the sweeper, the consumer, the clock, the other clients — delete the key, evict it, let it
+    expire, change its weight, shut down); then `upsert.weight_of` runs in a state in which the key id is not charged,
+    or charged with `charge ∓ ttl_ticker_entry_size` a positive `i64` (`ttlChargeOk`).  Then, along EVERY continuation
+    in which no new request is issued for client `i` (`CallRun i`: the other threads again do anything, between any
+    two actions of the call):
+    * every remaining action of the call meets `Act.pre` in the state in which it runs (so by
+      `C17_layerB_step_no_panic` it records no panic and kills nobody),
+    * no result recorded for client `i` from `upsert.update` on is a panic.
+    `upsert.weight_of` itself always meets `Act.pre` for such a request.  Before the fix the hypothesis at
+    `upsert.weight_of` had to be `ttl_ticker_entry_size < charge` with charge 0 for an id no longer charged — which a
+    delete, an eviction or the sweeper falsified in the middle of the call (the former
+    `C17_layerB_counterexample_race_*`). -/
+theorem C17_layerB_ttl_only_upsert_safe_under_races {b b1 b2 b3 b4 : BState} {i k : Nat} {ttl : Option Nat} {rm : Bool}
+    {o o1 o2 o3 : Oracle}
+    (hpc : b.cl[i]? = some (.upUpdate k none none ttl rm)) (hpre : Act.pre b (.client i))
+    (h1 : stepB b (.client i) o = .ok (b1, o1))
+    (hothers : OthersRun i b1 b2)
+    (hcharge : ∀ id old new, b2.cl[i]? = some (.upWeightOf id none old new) → ttlChargeOk b2.g id old new)
+    (h2 : stepB b2 (.client i) o2 = .ok (b3, o3))
+    (hrest : CallRun i b3 b4) :
+    (∃ e new, b.g.store.get? k = some e ∧ b2.cl[i]? = some (.upWeightOf e.id none e.expiry new)) ∧
+    Act.pre b2 (.client i) ∧ Act.pre b4 (.client i) ∧
+    (PanicFreeAt b i → PanicFreeAt b2 i ∧ PanicFreeAt b3 i ∧ PanicFreeAt b4 i) := by
+  obtain ⟨e, new, hk, hcl1, hres1⟩ := upUpdate_ttl_only hpc hpre h1
+  have hcl2 : b2.cl[i]? = some (.upWeightOf e.id none e.expiry new) := by rw [hothers.keep_pc, hcl1]
+  have hpre2 : Act.pre b2 (.client i) := by
+    show clientPre b2.g b2.cl[i]?
+    rw [hcl2]
+    simp only [clientPre, CPc.pre]
+    intro _; trivial
+  have htail := weightOf_upTail hcl2 (hcharge _ _ _ hcl2) h2
+  obtain ⟨_, r2, r3⟩ := upTail_callRun hrest htail
+  refine ⟨⟨e, new, hk, hcl2⟩, hpre2, r2, fun hp => ?_⟩
+  have hp1 : PanicFreeAt b1 i := by intro x hx; rw [hres1] at hx; exact hp x hx
+  have hp2 := hothers.panicFreeAt hp1
+  have hp3 := step_res_own hpre2 h2 hp2
+  exact ⟨hp2, hp3, r3 hp3⟩
+
+/-- … and in the case the fix is about — the key id is NOT CHARGED at `upsert.weight_of` (another thread took it out of
+    the ledger, or it never got in) — the hypothesis on the charge is void: the call cannot panic any more, whatever
+    the request's time-to-live change is. -/
+theorem C17_layerB_ttl_only_upsert_uncharged_safe {b b1 b2 b3 b4 : BState} {i k : Nat} {ttl : Option Nat} {rm : Bool}
+    {o o1 o2 o3 : Oracle}
+    (hpc : b.cl[i]? = some (.upUpdate k none none ttl rm)) (hpre : Act.pre b (.client i))
+    (h1 : stepB b (.client i) o = .ok (b1, o1)) (hothers : OthersRun i b1 b2)
+    (hunch : ∀ e, b.g.store.get? k = some e → b2.g.adm.kw.get? e.id = none)
+    (h2 : stepB b2 (.client i) o2 = .ok (b3, o3)) (hrest : CallRun i b3 b4) :
+    Act.pre b2 (.client i) ∧ Act.pre b4 (.client i) ∧
+    (PanicFreeAt b i → PanicFreeAt b2 i ∧ PanicFreeAt b3 i ∧ PanicFreeAt b4 i) := by
+  obtain ⟨e, new, hk, hcl1, _⟩ := upUpdate_ttl_only hpc hpre h1
+  have hcl2 : b2.cl[i]? = some (.upWeightOf e.id none e.expiry new) := by rw [hothers.keep_pc, hcl1]
+  refine (C17_layerB_ttl_only_upsert_safe_under_races hpc hpre h1 hothers ?_ h2 hrest).2
+  intro id old new' hcl
+  rw [hcl2] at hcl
+  simp only [Option.some.injEq, CPc.upWeightOf.injEq] at hcl
+  obtain ⟨rfl, -, rfl, rfl⟩ := hcl
+  exact ttlChargeOk_of_uncharged _ _ (hunch e hk)
+
+/-- with no weight to hand on, the last action of the call answers `Accepted` on the spot and sends nothing -/
+theorem C17_layerB_no_weight_accepted {b b' : BState} {i id e : Nat} {o o' : Oracle}
+    (hpc : b.cl[i]? = some (.upTtlDelete id e none) ∨ b.cl[i]? = some (.upTtlPut id e none) ∨
+      b.cl[i]? = some (.upTtlInsert id e none))
+    (h : stepB b (.client i) o = .ok (b', o')) :
+    b'.res = b.res.set i (.ack b.g.acks.length .accepted :: b.res.getD i []) ∧ b'.cl = b.cl.set i .idle ∧
+    b'.g.acks = b.g.acks ++ [.accepted] ∧ b'.g.queue = b.g.queue := by
+  rcases hpc with hpc | hpc | hpc
+  all_goals
+    simp only [stepB, clientAct, hpc] at h
+    split at h
+    · cases h
+    · simp only [Except.ok.injEq, Prod.mk.injEq] at h; obtain ⟨rfl, rfl⟩ := h
+      simp [upAfterIndex, spotFinish, finishCall, ttlDelete, ttlPut]
+
+
+/-! ### Non-vacuity of `C17_layerB_ttl_only_upsert_safe_under_races` -/
+
+/-- neither an action of client `i` nor a request for it -/
+def Act.notOf (i : Nat) : Act → Bool
+  | .client j => j != i
+  | .issue j _ => j != i
+  | _ => true
+
+/-- not a request for client `i` -/
+def Act.notIssueOf (i : Nat) : Act → Bool
+  | .issue j _ => j != i
+  | _ => true
+
+theorem Act.notOf_sound {i : Nat} {a : Act} (h : a.notOf i = true) : a ≠ .client i ∧ ∀ r, a ≠ .issue i r := by
+  cases a <;> simp_all [Act.notOf]
+
+theorem Act.notIssueOf_sound {i : Nat} {a : Act} (h : a.notIssueOf i = true) : ∀ r, a ≠ .issue i r := by
+  cases a <;> simp_all [Act.notIssueOf]
+
+/-- runs a list of actions none of which is client `i`'s, followed by a check of the state reached -/
+def checkOthers (i : Nat) : BState → List (Act × Oracle) → (BState → Bool) → Bool
+  | b, [], q => q b
+  | b, (a, o) :: tr, q =>
+    a.notOf i && (match stepB b a o with
+      | .ok (b', _) => checkOthers i b' tr q
+      | .error _ => false)
+
+/-- runs a list of actions none of which issues a request for client `i`, followed by a check of the state reached -/
+def checkCall (i : Nat) : BState → List (Act × Oracle) → (BState → Bool) → Bool
+  | b, [], q => q b
+  | b, (a, o) :: tr, q =>
+    a.notIssueOf i && (match stepB b a o with
+      | .ok (b', _) => checkCall i b' tr q
+      | .error _ => false)
+
+theorem checkOthers_sound {i : Nat} {q : BState → Bool} : ∀ (tr : List (Act × Oracle)) {b : BState},
+    checkOthers i b tr q = true → ∃ b', OthersRun i b b' ∧ q b' = true := by
+  intro tr
+  induction tr with
+  | nil => intro b h; exact ⟨b, .nil b, h⟩
+  | cons x tr ih =>
+    intro b h
+    obtain ⟨a, o⟩ := x
+    simp only [checkOthers, Bool.and_eq_true] at h
+    obtain ⟨ha, h⟩ := h
+    split at h
+    · rename_i b1 o1 hs
+      obtain ⟨b', hr, hq⟩ := ih h
+      exact ⟨b', .cons (Act.notOf_sound ha).1 (Act.notOf_sound ha).2 hs hr, hq⟩
+    · cases h
+
+theorem checkCall_sound {i : Nat} {q : BState → Bool} : ∀ (tr : List (Act × Oracle)) {b : BState},
+    checkCall i b tr q = true → ∃ b', CallRun i b b' ∧ q b' = true := by
+  intro tr
+  induction tr with
+  | nil => intro b h; exact ⟨b, .nil b, h⟩
+  | cons x tr ih =>
+    intro b h
+    obtain ⟨a, o⟩ := x
+    simp only [checkCall, Bool.and_eq_true] at h
+    obtain ⟨ha, h⟩ := h
+    split at h
+    · rename_i b1 o1 hs
+      obtain ⟨b', hr, hq⟩ := ih h
+      exact ⟨b', .cons (Act.notIssueOf_sound ha) hs hr, hq⟩
+    · cases h
+
+/-- the hypothesis on the charge, from the position the client is found at -/
+theorem hcharge_of {b2 : BState} {i id : Nat} {old new : Option Nat}
+    (hcl : b2.cl[i]? = some (.upWeightOf id none old new)) (hc : ttlChargeOk b2.g id old new) :
+    ∀ id' old' new', b2.cl[i]? = some (.upWeightOf id' none old' new') → ttlChargeOk b2.g id' old' new' := by
+  intro id' old' new' h
+  rw [hcl] at h
+  simp only [Option.some.injEq, CPc.upWeightOf.injEq] at h
+  obtain ⟨rfl, -, rfl, rfl⟩ := h
+  exact hc
+
+/-- **The key id is NOT charged at `upsert.weight_of`** — all hypotheses of
+    `C17_layerB_ttl_only_upsert_safe_under_races` on the run of the former `…_race_delete`: client 0 at
+    `upsert.update` of `put_or_update(1).remove_time_to_live()` (key 1 stored, charged 29); its action; THE OTHERS:
+    client 1 calls `delete(1)`, the worker executes it up to `kw.remove` (seven actions); `upsert.weight_of` finds
+    id 1 not charged; the rest of the call (with a worker action in between): answered `Accepted`. -/
+example : ∃ b b1 b2 b3 b4 o1 o3,
+    ValidRunB (c17B 2) (c17RaceSetup ++ acts [.issue 0 (.upsert 1 none none none true), .client 0]) b ∧
+    b.cl[0]? = some (.upUpdate 1 none none none true) ∧ Act.pre b (.client 0) ∧
+    stepB b (.client 0) {} = .ok (b1, o1) ∧ OthersRun 0 b1 b2 ∧
+    b2.g.adm.kw.get? 1 = none ∧ b2.g.store.get? 1 = none ∧
+    (∀ id old new, b2.cl[0]? = some (.upWeightOf id none old new) → ttlChargeOk b2.g id old new) ∧
+    stepB b2 (.client 0) {} = .ok (b3, o3) ∧ CallRun 0 b3 b4 ∧ PanicFreeAt b 0 ∧
+    b4.cl[0]? = some .idle ∧ b4.res[0]? = some [.ack 2 .accepted, .ack 0 .pending] := by
+  have h : checkRun (c17B 2) (c17RaceSetup ++ acts [.issue 0 (.upsert 1 none none none true), .client 0]) (fun b =>
+      decide (b.cl[0]? = some (.upUpdate 1 none none none true) ∧ Act.pre b (.client 0) ∧ PanicFreeAt b 0) &&
+      checkStep b (.client 0) {} (fun b1 =>
+        checkOthers 0 b1 (acts [.issue 1 (.delete 1), .client 1, .client 1, .client 1, .worker, .worker, .worker])
+          (fun b2 => decide (b2.g.adm.kw.get? 1 = none ∧ b2.g.store.get? 1 = none ∧
+              b2.cl[0]? = some (.upWeightOf 1 none (some 4000000000) none) ∧
+              ttlChargeOk b2.g 1 (some 4000000000) none) &&
+            checkStep b2 (.client 0) {} (fun b3 =>
+              checkCall 0 b3 (acts [.worker, .client 0]) (fun b4 => decide (
+                b4.cl[0]? = some .idle ∧ b4.res[0]? = some [.ack 2 .accepted, .ack 0 .pending])))))) = true := by
+    decide +kernel
+  obtain ⟨b, hv, hq⟩ := checkRun_sound h
+  simp only [Bool.and_eq_true, decide_eq_true_eq] at hq
+  obtain ⟨b1, o1, hs1, hq1⟩ := checkStep_sound hq.2
+  obtain ⟨b2, hr2, hq2⟩ := checkOthers_sound _ hq1
+  simp only [Bool.and_eq_true, decide_eq_true_eq] at hq2
+  obtain ⟨b3, o3, hs3, hq3⟩ := checkStep_sound hq2.2
+  obtain ⟨b4, hr4, hq4⟩ := checkCall_sound _ hq3
+  obtain ⟨g1, g2, g3⟩ := hq.1
+  obtain ⟨k1, k2, k3, k4⟩ := hq2.1
+  have hq4' := of_decide_eq_true hq4
+  exact ⟨b, b1, b2, b3, b4, o1, o3, hv, g1, g2, hs1, hr2, k1, k2, hcharge_of k3 k4, hs3, hr4, g3, hq4'.1, hq4'.2⟩
+
+/-- **The key id IS charged at `upsert.weight_of`, a time-to-live is added** — all hypotheses on the run `c17RunOk`:
+    after 21 actions client 0 stands at `upsert.update` of `put_or_update(1).time_to_live(2 s)`; its action; THE OTHERS:
+    the worker goes on with the put of key 2 (four actions), client 2 reads key 1 (four actions); `upsert.weight_of` finds
+    id 1 charged 29, and `29 + 24` is a positive `i64`; the rest of the call with the worker and the sweeper in
+    between: `UpdateWeight(1, 53)` is sent. -/
+example : ∃ b b1 b2 b3 b4 o1 o3, ValidRunB (c17B 3) (c17RunOk.take 21) b ∧
+    b.cl[0]? = some (.upUpdate 1 none none (some 2000000000) false) ∧ Act.pre b (.client 0) ∧
+    stepB b (.client 0) {} = .ok (b1, o1) ∧ OthersRun 0 b1 b2 ∧
+    b2.g.adm.kw.get? 1 = some { key := 1, hash := 1, weight := 29 } ∧
+    (∀ id old new, b2.cl[0]? = some (.upWeightOf id none old new) → ttlChargeOk b2.g id old new) ∧
+    stepB b2 (.client 0) {} = .ok (b3, o3) ∧ CallRun 0 b3 b4 ∧ PanicFreeAt b 0 ∧
+    b4.cl[0]? = some .idle ∧ b4.res[0]? = some [.ack 2 .pending, .ack 0 .pending] ∧
+    b4.g.queue = [(.updateWeight 1 53, some 2)] := by
+  have h : checkRun (c17B 3) (c17RunOk.take 21) (fun b =>
+      decide (b.cl[0]? = some (.upUpdate 1 none none (some 2000000000) false) ∧ Act.pre b (.client 0) ∧
+        PanicFreeAt b 0) &&
+      checkStep b (.client 0) {} (fun b1 =>
+        checkOthers 0 b1 ((c17RunOk.drop 22).take 8)
+          (fun b2 => decide (b2.g.adm.kw.get? 1 = some { key := 1, hash := 1, weight := 29 } ∧
+              b2.cl[0]? = some (.upWeightOf 1 none none (some 5000000000)) ∧
+              ttlChargeOk b2.g 1 none (some 5000000000)) &&
+            checkStep b2 (.client 0) {} (fun b3 =>
+              checkCall 0 b3 ((c17RunOk.drop 31).take 6) (fun b4 => decide (
+                b4.cl[0]? = some .idle ∧ b4.res[0]? = some [.ack 2 .pending, .ack 0 .pending] ∧
+                b4.g.queue = [(.updateWeight 1 53, some 2)])))))) = true := by
+    decide +kernel
+  obtain ⟨b, hv, hq⟩ := checkRun_sound h
+  simp only [Bool.and_eq_true, decide_eq_true_eq] at hq
+  obtain ⟨b1, o1, hs1, hq1⟩ := checkStep_sound hq.2
+  obtain ⟨b2, hr2, hq2⟩ := checkOthers_sound _ hq1
+  simp only [Bool.and_eq_true, decide_eq_true_eq] at hq2
+  obtain ⟨b3, o3, hs3, hq3⟩ := checkStep_sound hq2.2
+  obtain ⟨b4, hr4, hq4⟩ := checkCall_sound _ hq3
+  obtain ⟨g1, g2, g3⟩ := hq.1
+  obtain ⟨k1, k2, k3⟩ := hq2.1
+  have hq4' := of_decide_eq_true hq4
+  exact ⟨b, b1, b2, b3, b4, o1, o3, hv, g1, g2, hs1, hr2, k1, hcharge_of k2 k3, hs3, hr4, g3, hq4'.1, hq4'.2.1,
+    hq4'.2.2⟩
+
+/-- the hypothesis on the charge cannot be dropped for a CHARGED id: `C17_layerB_counterexample_ttl_removal` (key 1
+    charged 5, `5 - 24`) and `C17_layerB_counterexample_weight_overflow_caller` — there `ttlChargeOk` fails at
+    `upsert.weight_of` -/
+example : ∃ b, ValidRunB (c17B 2)
+      (acts (putActs 0 1 10 5 (some 1000000000) ++ List.replicate 7 .worker ++
+        .issue 0 (.upsert 1 none none none true) :: List.replicate 2 (.client 0))) b ∧
+    b.cl[0]? = some (.upWeightOf 1 none (some 4000000000) none) ∧ ¬ ttlChargeOk b.g 1 (some 4000000000) none := by
+  have h : checkRun (c17B 2) (acts (putActs 0 1 10 5 (some 1000000000) ++ List.replicate 7 .worker ++
+        .issue 0 (.upsert 1 none none none true) :: List.replicate 2 (.client 0)))
+      (fun b => decide (b.cl[0]? = some (.upWeightOf 1 none (some 4000000000) none) ∧
+        ¬ ttlChargeOk b.g 1 (some 4000000000) none)) = true := by decide +kernel
+  obtain ⟨b, hv, hq⟩ := checkRun_sound h
+  exact ⟨b, hv, of_decide_eq_true hq⟩
 
 end B
 end Cached
